@@ -217,6 +217,9 @@ def family_worker(job):
     fn = getattr(checkers, ck)
     for case in families.generate(fam, tier, shard, nshards):
         fn(prop, case, agg, **(extra or {}))
+    fin = getattr(checkers, ck + "_finish", None)
+    if fin is not None:
+        fin(prop, agg)
     return agg.result()
 
 
